@@ -79,6 +79,7 @@ void setup(vf::Options &o) {
   bool th = o.thorough;
   o.cap[vf::PREEMPT] = atoi(o.get("k", th ? "2" : "1").c_str());
   o.cap[vf::TIMER] = atoi(o.get("t", th ? "1" : "0").c_str());
+  o.cap[vf::WAKE] = atoi(o.get("w", th ? "1" : "0").c_str());  // spurious wake-ups of condition waits (thorough)
   o.table_bits = th ? 25 : 23;
   o.deadline_s = atof(o.get("budget", th ? "400" : "45").c_str());
   g_cfgs.push_back({1, 0, 2, 0, 0, 0});   // two concurrent Shutdown callers
